@@ -117,6 +117,8 @@ const EXTS: &[&str] = &["rs", "py", "txt", "c", "js", "md", "toml", "sh", ""];
 const WORDS: &[&str] = &[
     "alpha", "beta", "gamma", "delta", "let", "fn", "return", "if", "else", "x", "y", "foo(bar)", "42", "\"str\"", "// note", "=", "+=",
     "self.len()", "Vec::new()", "None", "true", "&mut", "[0]", "{", "}", ";",
+    // openers of multi-line constructs (comments, strings): the highlighter's parse state spans lines
+    "/*", "*/", "\"\"\"", "<!--", "r#\"",
 ];
 const MB_WORDS: &[&str] = &["héllo", "naïve", "日本", "语言", "λ", "→", "ß", "Ω"];
 
